@@ -145,8 +145,11 @@ func dynDemand(in, out, res *m.TNode, path string) string {
 			// all members of the result share one type, so a position resolved
 			// by any member is resolved in the result
 			for _, e := range in.Elems {
-				if m.HasDynamic(e) {
-					return "" // one undecided member leaves the common element type undecided
+				if m.HasDynamic(e) || !m.TypeEq(e, in.Elems[0]) {
+					// one undecided member leaves the common element type undecided, and
+					// members of different types resolve it only through unification,
+					// whose choice is C09's subject
+					return ""
 				}
 			}
 			for i, e := range in.Elems {
@@ -164,8 +167,9 @@ func dynDemand(in, out, res *m.TNode, path string) string {
 			if len(in.Attrs) == 0 {
 				return ""
 			}
+			first := in.Attrs[in.AttrNames()[0]]
 			for _, a := range in.Attrs {
-				if m.HasDynamic(a) {
+				if m.HasDynamic(a) || !m.TypeEq(a, first) {
 					return ""
 				}
 			}
@@ -537,4 +541,28 @@ func collapse(v cty.Value) cty.Value {
 		return cty.ObjectVal(mm)
 	}
 	return v
+}
+
+// hasNegZero: v holds a negative zero somewhere. -0 and 0 are equal numbers
+// with different texts, so a refinement that collapses to the known bound 0
+// stands for a -0 it "admits"; the relational clause is not judged then.
+func hasNegZero(v cty.Value) bool {
+	v, _ = v.Unmark()
+	if !v.IsKnown() || v.IsNull() {
+		return false
+	}
+	ty := v.Type()
+	if ty == cty.Number {
+		f := v.AsBigFloat()
+		return f.Sign() == 0 && f.Signbit()
+	}
+	if ty.IsCollectionType() || ty.IsTupleType() || ty.IsObjectType() {
+		for it := v.ElementIterator(); it.Next(); {
+			_, e := it.Element()
+			if hasNegZero(e) {
+				return true
+			}
+		}
+	}
+	return false
 }
